@@ -1,99 +1,111 @@
 import CklVerif.Lemmas.C20EvalM
 
 /-!
-  C20 (evaluator part) — the invariant for every helper program that does not evaluate nodes:
-  the helpers of `Eval.lean` and the modelled built-ins of `Natives.lean`.
+  C20 (evaluator part) — the invariant for every helper program of `Eval.lean` that does not evaluate
+  nodes.
 
   Every error these programs raise carries the position they were given (`pos`); the only other
-  position is the default `{}` in `assignAll`.
+  position is the default `{}` in `assignAll`.  Every value they return or store was given to them or
+  read from the state.
 -/
 namespace Ckl
+attribute [local irreducible] ValsOK DictOK PairsOK
 set_option linter.unusedSectionVars false
+set_option linter.unusedVariables false
 
-macro_rules | `(tactic| posok_lib) => `(tactic| exact PosOK.argGet _ _ (by eok))
-macro_rules | `(tactic| posok_lib) => `(tactic| exact PosOK.getIndex _ (by eok))
-macro_rules | `(tactic| posok_lib) => `(tactic| exact PosOK.asStringM _ (by eok))
-macro_rules | `(tactic| posok_lib) => `(tactic| exact PosOK.setArgs _ _ _ (by eok))
+macro_rules | `(tactic| posok_lib) => `(tactic| (apply PosOK.argGet <;> first | vok | eok))
+macro_rules | `(tactic| posok_lib) => `(tactic| (apply PosOK.getIndex <;> first | vok | eok))
+macro_rules | `(tactic| posok_lib) => `(tactic| (apply PosOK.asStringM <;> first | vok | eok))
+macro_rules | `(tactic| posok_lib) => `(tactic| (apply PosOK.setArgs <;> first | vok | eok))
 
 section
-variable {E : String → Pos → List (String × Pos) → Prop} {S : State → Prop} [StInv S]
+variable {E : String → Pos → List (String × Pos) → Prop} {P : Pos → Prop}
 
 namespace PosOK
 
-theorem addSet (items : List RVal) : PosOK E S (addSet items) := by
+theorem addSet {items : List RVal} (hi : ValsOK P items) : PosOK E P (addSet items) := by
   unfold Ckl.addSet; posok
 
-theorem destructure (v : RVal) (count : Nat) {pos : Pos} (h : ∀ msg, E msg pos []) : PosOK E S (destructure v count pos) := by
+theorem destructure {v : RVal} (hv : ValOK P v) (count : Nat) {pos : Pos} (h : ∀ msg, E msg pos []) :
+    PosOK E P (destructure v count pos) := by
   unfold Ckl.destructure; posok
 
-theorem bindLoopVars (env : EnvId) (ids : List String) (v : RVal) {pos : Pos} (h : ∀ msg, E msg pos []) :
-    PosOK E S (bindLoopVars env ids v pos) := by
+theorem bindLoopVars (env : EnvId) (ids : List String) {v : RVal} (hv : ValOK P v) {pos : Pos}
+    (h : ∀ msg, E msg pos []) : PosOK E P (bindLoopVars env ids v pos) := by
   unfold Ckl.bindLoopVars
-  have := fun n => destructure (S := S) v n h
-  posok
-  all_goals exact this _
+  split
+  · posok
+  · refine bind (destructure hv _ h) (fun vals hvals => ?_)
+    apply PosOK.modifyS
+    intro s hs
+    apply StOK.foldl hs
+    intro s' p hp hs'
+    exact hs'.put _ _ (ValsOK.of_mem hvals (List.of_mem_zip hp).2)
 
-theorem removeVars (env : EnvId) (ids : List String) : PosOK E S (removeVars env ids) := by
+theorem removeVars (env : EnvId) (ids : List String) : PosOK E P (removeVars env ids) := by
   unfold Ckl.removeVars; posok
 
-theorem spreadValues (v : RVal) {pos : Pos} (h : ∀ msg, E msg pos []) : PosOK E S (spreadValues v pos) := by
+theorem spreadValues {v : RVal} (hv : ValOK P v) {pos : Pos} (h : ∀ msg, E msg pos []) :
+    PosOK E P (spreadValues v pos) := by
   unfold Ckl.spreadValues; posok
 
-theorem collectionValues (v : RVal) (what : Option String) {pos : Pos} (h : ∀ msg, E msg pos []) :
-    PosOK E S (collectionValues v what pos) := by
+theorem collectionValues {v : RVal} (hv : ValOK P v) (what : Option String) {pos : Pos} (h : ∀ msg, E msg pos []) :
+    PosOK E P (collectionValues v what pos) := by
   unfold Ckl.collectionValues; posok
 
-theorem renameClosure (v : RVal) (name : String) : PosOK E S (renameClosure v name) := by
+theorem renameClosure (v : RVal) (name : String) : PosOK E P (renameClosure v name) := by
   constructor
   intro s hs
   cases v with
   | closure a =>
     simp only [Ckl.renameClosure, EvalM.bind_apply, Ckl.getS]
     cases hc : s.cell a with
-    | none => exact hs
+    | none => exact ⟨trivial, hs⟩
     | some c =>
       cases c with
-      | closure e ps ds b n => exact StInv.rename s a e ps ds b n name hc hs
-      | _ => exact hs
-  | _ => exact hs
+      | closure e ps ds b n => exact ⟨trivial, hs.setCell a (hs.closure hc)⟩
+      | _ => exact ⟨trivial, hs⟩
+  | _ => exact ⟨trivial, hs⟩
 
-theorem assignAll (env : EnvId) (xs : List String) (items : List RVal) (i : Nat) (last : RVal) {pos : Pos}
-    (h : ∀ msg, E msg pos []) (h0 : ∀ x : String, E (x ++ " is not defined") {} []) : PosOK E S (assignAll env xs items i last pos) := by
+theorem assignAll (env : EnvId) (xs : List String) {items : List RVal} (hi : ValsOK P items) (i : Nat) {last : RVal}
+    (hl : ValOK P last) {pos : Pos} (h : ∀ msg, E msg pos []) (h0 : ∀ x : String, E (x ++ " is not defined") {} []) :
+    PosOK E P (assignAll env xs items i last pos) := by
   induction xs generalizing i last with
-  | nil => unfold Ckl.assignAll; exact pure _
+  | nil => unfold Ckl.assignAll; exact pure hl
   | cons x xs ih =>
     unfold Ckl.assignAll
     posok
-    all_goals exact ih _ _
+    all_goals exact ih _ (hi.getD _)
 
-theorem defAll (env : EnvId) (xs : List String) (items : List RVal) (i : Nat) (last : RVal) :
-    PosOK E S (defAll env xs items i last) := by
+theorem defAll (env : EnvId) (xs : List String) {items : List RVal} (hi : ValsOK P items) (i : Nat) {last : RVal}
+    (hl : ValOK P last) : PosOK E P (defAll env xs items i last) := by
   induction xs generalizing i last with
-  | nil => unfold Ckl.defAll; exact pure _
+  | nil => unfold Ckl.defAll; exact pure hl
   | cons x xs ih =>
     unfold Ckl.defAll
-    have := fun v n => renameClosure (E := E) (S := S) v n
+    have := fun v n => renameClosure (E := E) (P := P) v n
     posok
-    all_goals first | exact ih _ _ | exact this _ _
+    all_goals first | exact ih _ (hi.getD _) | exact this _ _
 
-theorem comprResult (kind : ComprKind) (out : List (RVal × RVal)) : PosOK E S (comprResult kind out) := by
+theorem comprResult (kind : ComprKind) {out : List (RVal × RVal)} (ho : PairsOK P out) :
+    PosOK E P (comprResult kind out) := by
   unfold Ckl.comprResult
-  have := fun xs => addSet (E := E) (S := S) xs
+  have := fun xs (h : ValsOK P xs) => addSet (E := E) (P := P) h
   posok
-  all_goals exact this _
+  all_goals exact this _ ho.vals
 
 end PosOK
 end
 
-macro_rules | `(tactic| posok_lib) => `(tactic| exact PosOK.addSet _)
-macro_rules | `(tactic| posok_lib) => `(tactic| exact PosOK.destructure _ _ (by eok))
-macro_rules | `(tactic| posok_lib) => `(tactic| exact PosOK.bindLoopVars _ _ _ (by eok))
-macro_rules | `(tactic| posok_lib) => `(tactic| exact PosOK.removeVars _ _)
-macro_rules | `(tactic| posok_lib) => `(tactic| exact PosOK.spreadValues _ (by eok))
-macro_rules | `(tactic| posok_lib) => `(tactic| exact PosOK.collectionValues _ _ (by eok))
-macro_rules | `(tactic| posok_lib) => `(tactic| exact PosOK.renameClosure _ _)
-macro_rules | `(tactic| posok_lib) => `(tactic| exact PosOK.assignAll _ _ _ _ _ (by eok) (by eok))
-macro_rules | `(tactic| posok_lib) => `(tactic| exact PosOK.defAll _ _ _ _ _)
-macro_rules | `(tactic| posok_lib) => `(tactic| exact PosOK.comprResult _ _)
+macro_rules | `(tactic| posok_lib) => `(tactic| (apply PosOK.addSet <;> first | vok | eok))
+macro_rules | `(tactic| posok_lib) => `(tactic| (apply PosOK.destructure <;> first | vok | eok))
+macro_rules | `(tactic| posok_lib) => `(tactic| (apply PosOK.bindLoopVars <;> first | vok | eok))
+macro_rules | `(tactic| posok_lib) => `(tactic| (apply PosOK.removeVars <;> first | vok | eok))
+macro_rules | `(tactic| posok_lib) => `(tactic| (apply PosOK.spreadValues <;> first | vok | eok))
+macro_rules | `(tactic| posok_lib) => `(tactic| (apply PosOK.collectionValues <;> first | vok | eok))
+macro_rules | `(tactic| posok_lib) => `(tactic| (apply PosOK.renameClosure <;> first | vok | eok))
+macro_rules | `(tactic| posok_lib) => `(tactic| (apply PosOK.assignAll <;> first | vok | eok))
+macro_rules | `(tactic| posok_lib) => `(tactic| (apply PosOK.defAll <;> first | vok | eok))
+macro_rules | `(tactic| posok_lib) => `(tactic| (apply PosOK.comprResult <;> first | vok | eok))
 
 end Ckl
